@@ -4,6 +4,7 @@
   `fresh_refinement_partial` at that configuration.
 -/
 import Lcapy.Props.C16
+import Lcapy.Props.C16Pure
 import Lcapy.Generated.Caches
 namespace Lcapy.C16
 open Lcapy.Cache Lcapy.Gen.Caches
@@ -16,6 +17,26 @@ theorem add_multi_invalidates : config.addMultiInvalidates = true := by decide
 
 /-- public `remove` calls `_invalidate()` -/
 theorem remove_invalidates : config.removeInvalidates = true := by decide
+
+/-- `Netlist.remove` detaches the component from EVERY node it has (`for node in cpt.nodes`), whatever its arity -/
+theorem remove_detaches_all_nodes : config.removeSel = .all := by decide
+
+/-- ... and so does the override branch of `_cpt_add` with the component it replaces -/
+theorem override_detaches_all_nodes : config.overrideSel = .all := by decide
+
+/-- AST scan of the whole package: no helper class that keeps a reference to a cached / memoised object of the
+    netlist it was given (`cct.cg`, `cct.node_map`, `cct.components`, ...), and no netlist member, calls a mutating
+    method on such an object or assigns into it -/
+theorem shared_cached_objects_not_mutated : sharedMutations = [] := by decide
+
+/-- hence no public read-only member damages a memo slot -/
+theorem no_query_damages_cache : config.damages = [] := by decide
+
+/-- the scan is not vacuous: cached objects ARE handed out by reference (`CircuitGraph` keeps `cct.node_map`) -/
+example : sharedHandouts ≠ [] := by decide
+
+/-- the grammar table read from grammar.py has components with more than two nodes (E, G, TF, TP, opamp forms) -/
+example : ∃ r ∈ rules, r.1 = "E" ∧ (r.2.filter (· == "n")).length = 4 := by decide
 
 /-- `_invalidate` only names members that are memoised (anything else would raise) -/
 theorem cleared_are_memoised : ∀ s ∈ config.cleared, (config.kindOf s).isSome = true := by decide
